@@ -12,7 +12,23 @@ fn body(ctx: &Ctx) -> (Summary, Meta) {
                 spec,
                 den: 4,
                 f32_too: a.n() <= 7,
+                xscale: 1.0,
             });
+        }
+    }
+    // very fine and very coarse axes: the same splines on an axis scaled by 2^-50 and 2^40
+    // (spacing ~1e-15 resp. ~1e12); the reference is the unscaled exact spline
+    for a in axes.iter().filter(|a| a.name.starts_with("w[") && a.name.ends_with("@0") && a.n() <= if ctx.quick() { 4 } else { 6 }) {
+        for spec in bc_configs(a.n() + 8, a.n()) {
+            for xscale in [2.0f64.powi(-50), 2.0f64.powi(40)] {
+                jobs.push(SplineJob {
+                    axis: a.clone(),
+                    spec: spec.clone(),
+                    den: 4,
+                    f32_too: true,
+                    xscale,
+                });
+            }
         }
     }
     let want = Want {
